@@ -98,6 +98,8 @@ package foreach
 //@ func (*runningStep).ProvideStageInput
 //@   requires wfstep(r) && nolocks()
 //@   ensures [items-handed-over-in-order] sentnow(r.executeInput) ==> stage == "execute" && result == nil
+//@   site send#1 assert [the-handed-over-parallelism-is-the-requested-one] (parallelismInput == nil ==> parallelism == 1) && \
+//@        (parallelismInput != nil ==> called(Unserialize, 2) && callarg(Unserialize, 2, 1) == parallelismInput && any(parallelism) == callres(Unserialize, 2, 0))
 //@   site send#1 assert [a-step-given-its-items-no-longer-reports-waiting] r.currentStage == StageIDExecute ==> r.currentState != step.RunningStepStateWaitingForInput
 //
 //@ func (*runningStep).State
